@@ -764,7 +764,7 @@ class Scores:
         if self.pos[-1] < self.neg[0] and self.score_class == BinaryLabel.neg:
             return (self.pos[-1] + self.neg[0]) / 2, 0.0
 
-        sign = -(self.threshold_at_fpr(0.0) - self.threshold_at_fnr(0.0))
+        sign = -np.sign(self.threshold_at_fpr(0.0) - self.threshold_at_fnr(0.0))
 
         # We consider the inverse functions, i.e., the function that map fpr/fnr to
         # the threshold and find the cross-over point using the bisection method.
